@@ -377,7 +377,8 @@ pub fn gen_c01(seed: u64, thorough: bool) -> Vec<CaseSpec> {
             for (sz, ck) in szs {
                 // incompressible objects near the maximum of the 16-bit-SBN schemes take 131 k packets
                 // when accepted: they are run in the thorough tier only
-                let run = sch != Scheme::Raptor && (small || ck != 'r' || thorough);
+                // (one of them: a 131 k-packet session costs the model driver about a minute)
+                let run = sch != Scheme::Raptor && (small || ck != 'r' || (thorough && ci == 1 && sz == max - 40));
                 let mut sp = SessP::default();
                 sp.oti = OtiP { e: if sch == Scheme::Raptor { 64 } else { 1024 }, b: 8, ..o };
                 sp.n = if run { 0 } else { 8 };
